@@ -8,22 +8,22 @@ CONSTANT MaxSeq
 E0(a, ex, inst) == Ev(a, ex, inst, "", "", "-", 0, FALSE, "-", <<>>, NoFilter)
 F(k, set) == [k |-> k, set |-> set]
 Filters == {NoFilter, F("Exchanges", <<0>>), F("Exchanges", <<1>>), F("Instruments", <<1>>),
-            F("Instruments", <<0, 3>>), F("Underlyings", <<0>>), F("Underlyings", <<2>>)}
+            F("Instruments", <<0, 4>>), F("Underlyings", <<0>>), F("Underlyings", <<2>>), F("Underlyings", <<3, 4>>)}
 
 MCEvents ==
-       {E0("Market", ExOf(i), i) : i \in {0, 1, 3}}
+       {E0("Market", ExOf(i), i) : i \in {0, 2, 4}}
   \cup {E0(a, e, 0) : a \in {"MarketReconnecting", "AccountReconnecting"}, e \in {0, 1}}
-  \cup {Ev("OrderSnap", ExOf(i), i, "c1", k, "-", 0, FALSE, "-", <<>>, NoFilter) : i \in {0, 3}, k \in {"Open", "Inactive"}}
+  \cup {Ev("OrderSnap", ExOf(i), i, "c1", k, "-", 0, FALSE, "-", <<>>, NoFilter) : i \in {0, 4}, k \in {"Open", "Inactive"}}
   \cup {Ev("CancelResp", 0, 0, "c1", "", "-", 0, ok, "-", <<>>, NoFilter) : ok \in BOOLEAN}
-  \cup {Ev("Trade", ExOf(i), i, "", "", sd, 1, FALSE, "-", <<>>, NoFilter) : i \in {1, 3}, sd \in {"buy", "sell"}}
+  \cup {Ev("Trade", ExOf(i), i, "", "", sd, 1, FALSE, "-", <<>>, NoFilter) : i \in {2, 4}, sd \in {"buy", "sell"}}
   \cup {Ev("Balance", 0, 0, "", "", "-", 3, FALSE, "-", <<>>, NoFilter)}
   \cup {Ev("TradingState", 0, 0, "", "", "-", 0, FALSE, to, <<>>, NoFilter) : to \in {"Enabled", "Disabled"}}
   \cup {Ev("SendOpens", 0, 0, "", "", "-", 0, FALSE, "-", rs, NoFilter) :
            rs \in {<<OpenReq(0, "c1", "buy", 1)>>,
-                   <<OpenReq(0, "c1", "buy", 1), OpenReq(3, "c2", "sell", 2)>>,
+                   <<OpenReq(0, "c1", "buy", 1), OpenReq(4, "c2", "sell", 2)>>,
                    <<Req("open", 2, 0, "c2", "buy", 1, FALSE)>>}}          \* unknown exchange index
   \cup {Ev("SendCancels", 0, 0, "", "", "-", 0, FALSE, "-", rs, NoFilter) :
-           rs \in {<<CancelReq(0, "c1", FALSE)>>, <<CancelReq(0, "c1", TRUE), CancelReq(3, "c2", FALSE)>>}}
+           rs \in {<<CancelReq(0, "c1", FALSE)>>, <<CancelReq(0, "c1", TRUE), CancelReq(4, "c2", FALSE)>>}}
   \cup {Ev(a, 0, 0, "", "", "-", 0, FALSE, "-", <<>>, f) : a \in {"CancelOrders", "ClosePositions"}, f \in Filters}
   \cup {E0("Shutdown", 0, 0)}
 
@@ -31,11 +31,11 @@ Links == {<<"healthy", "healthy">>, <<"healthy", "closed">>, <<"unhealthy", "hea
           <<"missing", "healthy">>, <<"closed", "unhealthy">>}
 Scripts == {<< <<>>, <<>> >>,
             << <<>>, <<OpenReq(0, "c2", "buy", 1)>> >>,
-            << <<CancelReq(0, "c1", TRUE)>>, <<OpenReq(3, "c2", "sell", 1)>> >>}
+            << <<CancelReq(0, "c1", TRUE)>>, <<OpenReq(4, "c2", "sell", 1)>> >>}
 MCEnvs == {Env(l, s[1], s[2], r) : l \in Links, s \in Scripts, r \in {<<>>, <<"c2">>}}
 
 LinksQ == {<<"healthy", "healthy">>, <<"healthy", "closed">>, <<"unhealthy", "healthy">>, <<"missing", "healthy">>}
-ScriptsQ == {<< <<>>, <<>> >>, << <<CancelReq(0, "c1", TRUE)>>, <<OpenReq(3, "c2", "sell", 1)>> >>}
+ScriptsQ == {<< <<>>, <<>> >>, << <<CancelReq(0, "c1", TRUE)>>, <<OpenReq(4, "c2", "sell", 1)>> >>}
 MCEnvsQ == {Env(l, s[1], s[2], r) : l \in LinksQ, s \in ScriptsQ, r \in {<<>>, <<"c2">>}}
 
 MCEnvs1 == {Env(<<"healthy", "healthy">>, <<>>, <<OpenReq(0, "c2", "buy", 1)>>, <<>>)}
@@ -45,18 +45,19 @@ MCEnvs1 == {Env(<<"healthy", "healthy">>, <<>>, <<OpenReq(0, "c2", "buy", 1)>>, 
 (* engine states (any mix of untracked / in-flight / open / cancel-in-flight*)
 (* orders, long / short / no position, price known / unknown), one step.    *)
 (***************************************************************************)
-InstA == {[orders |-> [c \in CIDS |-> IF c = "c1" THEN k ELSE "U"], net |-> n, priced |-> p] :
-             k \in Kinds, n \in {0, 2}, p \in BOOLEAN}
-InstB == {[orders |-> [c \in CIDS |-> IF c = "c2" THEN k ELSE "U"], net |-> n, priced |-> TRUE] :
-             k \in {"U", "Open", "CIFo"}, n \in {0, -1}}
-ScopeInit == /\ st \in {[trading |-> "Disabled", conn |-> StInit("Disabled").conn, inst |-> <<a, b, c, d>>] :
-                          a \in InstA, b \in InstB, c \in InstB, d \in InstA}
+InstOf(c, k, n, p) == [orders |-> [x \in CIDS |-> IF x = c THEN k ELSE "U"], net |-> n, priced |-> p]
+InstA == {InstOf("c1", k, n, p) : k \in Kinds, n \in {0, 2}, p \in BOOLEAN}
+InstB == {InstOf("c2", k, 0, TRUE) : k \in {"U", "Open", "CIFo"}}
+InstC == {InstOf("c2", "U", n, TRUE) : n \in {0, -1}}
+InstD == {InstOf("c1", k, n, TRUE) : k \in {"OIF", "Open"}, n \in {0, 2}}
+ScopeInit == /\ st \in {[trading |-> "Disabled", conn |-> StInit("Disabled").conn, inst |-> <<a, b, c, d, e>>] :
+                          a \in InstA, b \in InstB, c \in InstC, d \in InstB, e \in InstD}
              /\ seq = 0 /\ tick = NoTick /\ dl = [e \in 1..NEX |-> {}]
              /\ last = [ev |-> NoEvent, env |-> NoEnv]
 NonEmptySeqs(S) == {SetToSeq(T) : T \in (SUBSET S) \ {{}}}
 AllFilters == {NoFilter} \cup {F("Exchanges", q) : q \in NonEmptySeqs({0, 1})}
-                         \cup {F("Instruments", q) : q \in NonEmptySeqs({0, 1, 2, 3})}
-                         \cup {F("Underlyings", q) : q \in NonEmptySeqs({0, 2, 3})}
+                         \cup {F("Instruments", q) : q \in NonEmptySeqs({0, 1, 2, 3, 4})}
+                         \cup {F("Underlyings", q) : q \in NonEmptySeqs({0, 2, 3, 4})}
 ScopeEvents == {Ev(a, 0, 0, "", "", "-", 0, FALSE, "-", <<>>, f) : a \in {"CancelOrders", "ClosePositions"}, f \in AllFilters}
 ScopeEnvs == {Env(l, <<>>, <<>>, <<>>) : l \in {<<"healthy", "healthy">>, <<"unhealthy", "healthy">>}}
 ScopeStep == seq = 0 /\ \E ev \in ScopeEvents, env \in ScopeEnvs : Process(ev, env)
